@@ -5,6 +5,8 @@ ASSUME Total
 ASSUME ChildInsideParent
 ASSUME MarkInsideLine
 ASSUME EmitMarkTable
+ASSUME CaretsUnderToken
+ASSUME EmitOwnTable
 ASSUME EnvsJson
 ASSUME Emit
 ASSUME PrintT("UNIVERSE " \o ToString(Cardinality(Exprs)))
